@@ -424,6 +424,9 @@ CONCAT_OPS = [
     ('export', ['transitions', '{src}', '{dest}', 'gap', '--transform', 'negra_mark_heads', 'binarize'], 'lines', 'dest'),
     ('export', ['grammar', '{src}', '{dest}', 'treebank'], 'pmcfg', 'dest.pmcfg'),
     ('export', ['grammar', '{src}', '{dest}', 'leftright', '--markov', 'v:1', 'h:1'], 'pmcfg', 'dest.pmcfg'),
+    # deterministic binarization numbers its fresh symbols consecutively: compared after un-binarization
+    ('export', ['grammar', '{src}', '{dest}', 'leftright'], 'pmcfg-unbin', 'dest.pmcfg'),
+    ('export', ['grammar', '{src}', '{dest}', 'optimal'], 'pmcfg-unbin', 'dest.pmcfg'),
     ('export', ['grammar', '{src}', '{dest}', 'treebank'], 'lex', 'dest.lex'),
     ('export', ['treeanalysis', '{src}', 'GapDegree'], 'gapreport', None),
     ('export', ['treeanalysis', '{src}', 'SentenceCount'], 'count', None),
@@ -492,6 +495,11 @@ def _interpret(kind, text):
         return [x[1:] for x in _decode_any('tigerxml', text)]
     if kind == 'pmcfg':
         return collections.Counter({(f, l): c for f, lins in decode_pmcfg(text).items() for l, c in lins.items()})
+    if kind == 'pmcfg-unbin':
+        from .. import lcfrs
+        back = lcfrs.unbinarize({f: {l: {'': c} for l, c in lins.items()} for f, lins in decode_pmcfg(text).items()},
+                                lambda lab: lab.startswith('@'))
+        return collections.Counter({(f, l): c for f, lins in back.items() for l, c in lins.items()})
     if kind == 'lex':
         return collections.Counter({(w, t): c for w, tags in decode_lex(text).items() for t, c in tags.items()})
     if kind == 'gapreport':
